@@ -21,7 +21,7 @@ done
 cd /verif
 VERIF_REPO=$WT ./check $PROP --tier quick -evidence /tmp/ev_$SID.json -replays /tmp/rp_$SID > /tmp/check_$SID.log 2>&1
 rc=$?
-keys=$(grep -o "key=[^ ]*" /tmp/check_$SID.log | sort -u | head -6 | tr '\n' ' ')
+keys=$(grep -a -o "key=[^ ]*" /tmp/check_$SID.log | sort -u | head -6 | tr '\n' ' ')
 cp "$DIFF" "$OUT/patch.diff"
 python3 - "$OUT/meta.json" "$SID" "$PROP" "$suite" "$rc" "$keys" "$NOTE" <<'PY'
 import json,sys
